@@ -110,6 +110,18 @@ func checkMainRejects(c *Ctx, p *Prog) {
 		c.Undecided("R14.3", "main.main", "function not found")
 		return
 	}
+	if mainTableDecided(p) {
+		// main as a transfer table (cmain.go): every failing stage ends in a non-zero exit before any generator
+		checkMainTable(c, p, "R14.3", "errors")
+		if ef := p.Func("internal/frontend/scanner", "*Scanner.error"); ef != nil {
+			st := recvFieldStores(ef)
+			_, ok := st["ErrorCount"]
+			c.Ob("R14.2", "Scanner.error counts", ok, "Scanner.error must increment ErrorCount", p.FnPos(ef))
+		}
+		crd := p.Func("internal/ast", "*LexPart.CheckRegDefs")
+		c.Ob("R14.5", "the check main runs before generating looks at every reference to a regular definition", crd != nil && inspectsRegDefIds(p, crd, 0, map[*ssa.Function]bool{}), "LexPart.CheckRegDefs (the stage whose error ends main in the table) must visit every *ast.LexRegDefId and test it against the definitions (witness for the old code: `_x : _y ; a : 'a' ;` exited 0)")
+		return
+	}
 	gens := generatorCalls(mainFn)
 	if len(gens) < 4 {
 		c.Undecided("R14.3", "main.main: generator calls", fmt.Sprintf("only %d calls into */gen* packages found (4 confirmed by hand)", len(gens)))
